@@ -184,7 +184,7 @@ func cmdCheck(prop, tier string) int {
 			}
 		}()
 	}
-	deadline := start.Add(bud.wall)
+	deadline := time.Now().Add(bud.wall) // (counted from the end of the build: a loaded machine must not eat the batch)
 	stop := make(chan struct{})
 	go func() {
 		defer close(jobs)
